@@ -215,3 +215,34 @@ Proof.
   destruct (workflow_seq cs m m' W x0 xs H Hk Hna Hok HW Hlam Hx0 HR0 (pull_bool _ _ Hs) Mx) as (A & B0 & C0).
   split; [exact A|]. split; [exact B0|]. rewrite <- E. exact C0.
 Qed.
+
+
+From QV.Proofs Require Import InvConstraint.
+(* the bookkeeping invariant of the objective model is enough: the constraint methods preserve it *)
+Lemma run_ok_Inv cs : forall m m', run_ok m cs = Ok m' -> Inv m -> Inv m'.
+Proof.
+  induction cs as [|c cs IH]; intros m m' H HI; cbn [run_ok] in H; [injection H as <-; exact HI|].
+  destruct (add_constraint (cc_rel c) m (cc_P c) (cc_lam c) (cc_log c) (cc_bounds c)) as [[[m1 w] t]|] eqn:E; cbn [bind] in H; [|discriminate].
+  assert (H1 : run_ok m1 cs = Ok m') by (destruct w; [exact H| discriminate| exact H]).
+  apply (IH m1 m' H1). eapply add_constraint_Inv; eassumption.
+Qed.
+
+Theorem workflow_seq_reduced_inv cs m m' W x0 out deg l pairs D s :
+  run_ok m cs = Ok m' -> bkind (kd m) -> no_anc (tm m) -> Forall call_ok cs ->
+  let f := fun x => eval x (tm m) in
+  (forall x x', boolean_env x -> boolean_env x' -> f x - f x' <= W) ->
+  (forall c, In c cs -> W < cc_lam c) ->
+  boolean_env x0 -> (forall c, In c cs -> cR c x0) ->
+  reduce_degree m' out deg l pairs = Ok D -> bmat out -> Inv m -> is_labelled (kd m) = true ->
+  (forall ms, mapped_self (mp m') (tm m') = Ok ms -> forall k v, In (k, v) ms -> Qabs v <= lam_fun l v) ->
+  boolean_env s -> (forall s', boolean_env s' -> eval s (tm D) <= eval s' (tm D)) ->
+  let xs := ConvertProofs.pull (mp m') s in
+  (forall c, In c cs -> cR c xs) /\
+  (forall x, boolean_env x -> (forall c, In c cs -> cR c x) -> f xs <= f x) /\
+  eval s (tm D) == f xs.
+Proof.
+  intros H Hk Hna Hok f HW Hlam Hx0 HR0 HD Hbm HI Hl Hpen Hs Hmin xs.
+  destruct (run_ok_pens cs m m' H Hk (no_anc_LP _ Hna _) Hok) as (_ & _ & _ & _ & _ & _ & _ & Kd).
+  apply (workflow_seq_reduced cs m m' W x0 out deg l pairs D s H Hk Hna Hok HW Hlam Hx0 HR0 HD Hbm
+           (run_ok_Inv cs m m' H HI) ltac:(rewrite Kd; exact Hl) Hpen Hs Hmin).
+Qed.
